@@ -13,7 +13,7 @@ import itertools
 PROP = 'C10'
 LEAN_TARGETS = ['VivProps.C10']
 DRIVER = 'Book'
-REQUIRED_THEOREMS = ['reused_path_starts_fresh', 'bookkeeping_step', 'bookkeeping_history', 'deleted_not_listed',
+REQUIRED_THEOREMS = ['reused_path_starts_fresh', 'replaced_path_starts_fresh', 'bookkeeping_step', 'bookkeeping_history', 'deleted_not_listed',
                      'additions_keep_steps_scheduled', 'deletion_keeps_steps_scheduled_partial',
                      'dependants_dropped_witness', 'restructured_pass_progress',
                      'only_listed_processes_run', 'new_start_now_survivors_keep']
@@ -692,7 +692,7 @@ LEVEL_TEXT = ('Lean 4 theorems: for every history of structural reports the engi
               'loop head, only listed processes are polled or invoked, new ones start at the current global time, '
               'survivors keep their fronts and the scheduler invariant (termination, monotone clock, exactly-once) '
               'survives; a path that is deleted and used again in one batch starts with a fresh front '
-              '(reused_path_starts_fresh, after fix F40). Deleting a step with surviving dependants unschedules them (known finding F10): the '
+              '(reused_path_starts_fresh, after fix F40; replaced_path_starts_fresh, after fix F51). Deleting a step with surviving dependants unschedules them (known finding F10): the '
               'scheduling theorem is partial and the negation is proved on the witness. Tied to engine.py/store.py by '
               'replaying generated structural histories on a real Engine.')
 LEVEL_NOTE = ('Trusted: Lean kernel + standard axioms; the reports fed to the bookkeeping model are derived by the '
